@@ -70,6 +70,7 @@ impl Runner {
                         belief: None,
                         max_spread: None,
                         to,
+                        from: None,
                     },
                     note: "adversary named-other-asset".into(),
                 })
@@ -103,6 +104,7 @@ impl Runner {
                         belief: None,
                         max_spread: None,
                         to,
+                        from: None,
                     },
                     note: "adversary named-other-amount".into(),
                 })
@@ -139,6 +141,7 @@ impl Runner {
                         belief: None,
                         max_spread: None,
                         to,
+                        from: None,
                     },
                     note: "adversary foreign-token-hook".into(),
                 })
@@ -162,6 +165,7 @@ impl Runner {
                         belief: None,
                         max_spread: None,
                         to,
+                        from: None,
                     },
                     note: "adversary rogue-receive".into(),
                 })
@@ -190,6 +194,7 @@ impl Runner {
                         belief: None,
                         max_spread: None,
                         to,
+                        from: None,
                     },
                     note: "adversary lp-token-hook".into(),
                 })
